@@ -65,6 +65,9 @@ def run(res, tier):
     ev, bad, kn, s2 = _dp.run_direct(
         rng, n_dir, [('dims', lambda c, r, kp: direct.c04_dims(c, kp))], gen_kw=dict(max_len=3, max_depth=2))
     n3, bad3 = centers_contract()
+    n4, bad4 = direct.leaf_refit(rng)
+    n3 += n4
+    bad3 = bad3 + bad4
     res.coverage.update(
         evaluations=len(batch.meta) + ev + n3, distinct_nontrivial=distinct + ev + n3,
         rule=('M2: (n_states_out_, n_inputs_out_, min_samples_, n_samples_in(4)) and transform output of the '
